@@ -1748,6 +1748,21 @@ def gen_c08(tier, seed):
                 s["steps"].append({"op": "list", "band": bd["id"], "subtree": rng.choice(["/a", "/a/b", "/é", "/z"])})
                 s["steps"].append({"op": "list", "band": bd["id"], "excl": [rng.choice(["a", "/a/b", "*b", "z", "é"])]})
         scens.append(s)
+    # a long chain of interrupted versions, each reaching one or two paths further than the one after
+    # it (with a head-less or empty one here and there): the newest listing takes a little from each
+    for i, N in enumerate([40, 25] if tier == "quick" else [40, 25, 120, 200]):
+        paths = ["/p%03d" % j for j in range(2 * N + 2)]
+        lay, reach = [], 2 * N
+        for j in range(N):
+            kind = rng.choice(["incomplete"] * 5 + ["nohead", "empty"]) if 0 < j < N - 1 else ("complete" if j == 0 and i % 2 == 0 else "incomplete")
+            sel = list(range(1, reach + 1)) if kind not in ("nohead", "empty") else []
+            hunks = [sel[k:k + 7] for k in range(0, len(sel), 7)]
+            lay.append({"st": "incomplete" if kind == "empty" else kind, "hunks": hunks, "off": 0})
+            if kind not in ("nohead", "empty"):
+                reach -= rng.randrange(1, 3)
+        sc = c08_scenario(sid("C08", "chain", i), lay, paths, list(range(N)), ["long-chain"])
+        sc["steps"] = [sc["steps"][0]] + [{"op": "list", "band": b} for b in (N - 1, N // 2)] + [{"op": "restore", "band": N - 1}]
+        scens.append(sc)
     return scens, mcs
 
 
@@ -1964,7 +1979,7 @@ def run_check(prop, tier, seed, t0, keep=False):
     else:
         scens = gen_out
     own = len(scens)
-    scens = [cvlib.age_scenario(cvlib.fix_scenario(x)) for x in scens + common_pool(prop, tier, seed)]
+    scens = [cvlib.odd_source(cvlib.age_scenario(cvlib.fix_scenario(x))) for x in scens + common_pool(prop, tier, seed)]
     by_id = {s["id"]: s for s in scens}
     mc = list(mc)
     for entry in MODELS.get(prop, {}).get(tier, []):
